@@ -12,8 +12,10 @@ C07 — executable model of `qbase/src/packet/number.rs`, transliterated branch 
 All literal numbers (thresholds, cast widths, window widths, sizes) come from `Gen/Consts.lean` and
 `Gen/PnConsts.lean`, regenerated from the Rust source on every check run.
 
-The in-memory value is modelled exactly: `U24` holds `pn as u32` (32 bits, not 24) because that is what
-`encode` stores; only `put_packet_number` drops the top byte.  Core-only imports (linked into `gmq_model`).
+The in-memory value is modelled exactly: `U24` holds `pn as u32 & pnMask24` (the 24-bit mask of
+fix-C07-u24-mask; before the fix `encode` stored all 32 bits of `pn as u32` and only `put_packet_number`
+dropped the top byte — the translator then yields `pnMask24 = 2^32 − 1` and `decode_encode_inmem` stops
+proving).  Core-only imports (linked into `gmq_model`).
 -/
 namespace GmQuic.Pn
 open GmQuic.Gen GmQuic.Wire
@@ -54,7 +56,7 @@ def encode (pn la : Nat) : Res PacketNumber :=
     let range := max ((pn - la) * pnRangeFactor) pnMinRange
     if range < pnThresh8 then .ok (.u8 (pn % 2 ^ pnCast8))
     else if range < pnThresh16 then .ok (.u16 (pn % 2 ^ pnCast16))
-    else if range < pnThresh24 then .ok (.u24 (pn % 2 ^ pnCast24))
+    else if range < pnThresh24 then .ok (.u24 ((pn % 2 ^ pnCast24) &&& pnMask24))
     else if range < pnThresh32 then .ok (.u32 (pn % 2 ^ pnCast32))
     else .panic .tooLarge
 
